@@ -26,7 +26,7 @@ TECH = {
     "C19": "bounded symbolic execution of the core chain with typographer off/on and symbolic quote strings; shape/non-text identity and quote-alignment oracle",
 }
 NOTE = ("Trusted base: CPython 3.12, z3 5.1.0, CrossHair 0.0.110's symbolic models of str/re/list/dict (every explored path's concrete representative is re-run natively "
-        "and must agree in verdict and observable, otherwise the job is inconclusive), the oracles in vcheck/oracles and vcheck/props (calibrated natively on the repo's "
+        "and must agree in verdict and observable, otherwise the job is inconclusive), the five engine patches of DESIGN.md 10.4, the oracles in vcheck/oracles and vcheck/props (calibrated natively on the repo's "
         "own fixtures). Bounded: holds for every value of the free variables inside the stated bound; says nothing outside it.")
 
 
